@@ -13,7 +13,14 @@ ids="${*:-$prop}"
 sb="/tmp/sb-seedrun-$tag"
 git -C /repo worktree remove --force "$sb/repo" >/dev/null 2>&1
 rm -rf "$sb"; mkdir -p "$sb"
-rsync -a --exclude '.git' --exclude 'work' --exclude 'replays/*' --exclude 'seeded' /verif/ "$sb/verif/"
+# sources from the last COMMIT of /verif (never a half-edited working tree); build caches from the working tree
+mkdir -p "$sb/verif"
+git -C /verif archive HEAD | tar -x -C "$sb/verif"
+for d in harness/target harness-rel/target lean/.lake; do
+  [ -d "/verif/$d" ] && mkdir -p "$sb/verif/$d" && rsync -a "/verif/$d/" "$sb/verif/$d/"
+done
+cp -n /verif/harness/Cargo.lock "$sb/verif/harness/Cargo.lock" 2>/dev/null; cp -n /verif/harness-rel/Cargo.lock "$sb/verif/harness-rel/Cargo.lock" 2>/dev/null
+touch "$sb/verif/harness/build.rs"
 sed -i "s#/verif/harness/target#$sb/verif/harness/target#" "$sb/verif/harness/.cargo/config.toml"
 sed -i "s#/verif/harness-rel/target#$sb/verif/harness-rel/target#" "$sb/verif/harness-rel/.cargo/config.toml"
 git -C /repo worktree add -f --detach "$sb/repo" HEAD >/dev/null 2>&1
